@@ -1504,6 +1504,14 @@ class Glyph(BaseObject):
                 setter(key, init(factory, data))
             return wrapper
 
+        def set_shallow_contours(key, contours):
+            # the outline arrives as the recorded pen calls, the contour
+            # objects are made on demand. announce it like appendContour
+            # does: representations made from the previous outline
+            # (and components built on this glyph) depend on it.
+            set_attr(key, contours)
+            self.postNotification(notification="Glyph.ContoursChanged")
+
         # Clear all contours, components, anchors and guidelines from the glyph.
         self.clear()
 
@@ -1515,7 +1523,7 @@ class Glyph(BaseObject):
             ('note', set_attr),
             ('lib', set_attr),
             ('tempLib', set_attr),
-            ('_shallowLoadedContours', set_attr),
+            ('_shallowLoadedContours', set_shallow_contours),
             ('_contours', init_set(list_init, self.instantiateContour, set_each(self.appendContour, True))),
             ('components', init_set(list_init, self.instantiateComponent, set_each(self.appendComponent, True))),
             ('guidelines', init_set(list_init, self.instantiateGuideline, set_attr)),
